@@ -107,7 +107,7 @@ func specFromOpReq(r *gen.R, req mon.OpReq, initMask uint64) *modelSpec {
 			initMask &^= 1 << uint(i)
 		}
 	}
-	g, feed := mon.BuildOpModel(req, mon.ModelOpts{InitMask: initMask, RawInits: r.Bool(), Truncate: r.Bool()})
+	g, feed := mon.BuildOpModel(req, mon.ModelOpts{InitMask: initMask, RawInits: r.Bool(), Truncate: r.Bool(), DynamicIn: r.Chance(0.4)})
 	var outs []string
 	for _, o := range g.Outputs {
 		outs = append(outs, o.Name)
